@@ -17,7 +17,8 @@ Inductive lcmd :=
 | LCset (i : Z) (v : bytes)
 | LCtrim (start stop : Z)
 | LCclear
-| LCinvalid.
+| LCinvalid
+| LCfixkey.                                       (* LFIXKEY: the repair command (scanfixListKey) *)
 Inductive lqry := LQlen | LQkeyexist | LQrange (start stop : Z) | LQindex (i : Z) | LQinvalid.
 
 Record lmeta := { lm_ver : Z; lm_head : Z; lm_tail : Z }.
@@ -58,6 +59,13 @@ Definition ldrop_range (v lo hi : Z) (es : list (skey * bytes)) : list (skey * b
 Fixpoint push_seqs (seq delta : Z) (vs : list bytes) : list (Z * bytes) :=
   match vs with [] => [] | x :: r => (seq, x) :: push_seqs (seq + delta) delta r end.
 
+(* the sequence numbers a scan returned are continuous *)
+Fixpoint contiguous (l : list Z) : bool :=
+  match l with
+  | a :: (b :: _) as r => (a + 1 =? b) && contiguous r
+  | _ => true
+  end.
+
 (* lDelete: meta deleted; under wait_compact with a generation below the clearing timestamp the element
    keys are left to the compaction filter; otherwise the element keys head..tail go: with one
    DeleteRange [key head, key tail) when the list has more than RangeDeleteNum elements, key by key over
@@ -84,6 +92,27 @@ Definition ldelete (lazy : bool) (l : lcoll) : lcoll * Z :=
 Definition lstep (compact : bool) (ts : Z) (key : bytes) (c : lcmd) (l : lcoll) : lcoll * reply :=
   match c with
   | LCinvalid => (l, RErr)
+  | LCfixkey =>
+      (* scanfixListKey: walk the element keys of the generation between listMinSeq and listMaxSeq; if they are
+         continuous and head / tail of the meta are not the first / last one found, rewrite the meta (no key of
+         the generation at all: delete it).  The handler drops every error and replies nil. *)
+      match l_meta l with
+      | None => (l, RNil)
+      | Some m =>
+          let seqs := map fst (lscan (lm_ver m) list_min_seq list_max_seq (l_elems l)) in
+          if negb (contiguous seqs) then (l, RNil)
+          else
+            let fh := hd 0 seqs in
+            let ft := last seqs 0 in
+            if (lm_head m =? fh) && (lm_tail m =? ft) then (l, RNil)
+            else match seqs with
+                 | [] => if l_size l =? 0 then (l, RNil) else ({| l_meta := None; l_elems := l_elems l |}, RNil)
+                 | _ => match lset_meta (lm_ver m) fh ft with
+                        | Some m' => ({| l_meta := m'; l_elems := l_elems l |}, RNil)
+                        | None => (l, RNil)
+                        end
+                 end
+      end
   | LCpush tail vs =>
       if too_many vs then (l, RErr)
       else if negb (key_ok key) then (l, RErr)
@@ -195,7 +224,8 @@ Definition lquery (key : bytes) (q : lqry) (l : lcoll) : reply :=
 Local Open Scope N_scope.
 Definition lname (n : bytes) (l : list N) : bool := bytes_eqb n l.
 Definition parse_l (n : bytes) (rest : list bytes) : option (lcmd + lqry) :=
-  if lname n [108;112;117;115;104] then Some (inl (LCpush false rest))
+  if lname n [108;102;105;120;107;101;121] then match rest with [] => Some (inl LCfixkey) | _ => None end
+  else if lname n [108;112;117;115;104] then Some (inl (LCpush false rest))
   else if lname n [114;112;117;115;104] then Some (inl (LCpush true rest))
   else if lname n [108;112;111;112] then match rest with [] => Some (inl (LCpop false)) | _ => None end
   else if lname n [114;112;111;112] then match rest with [] => Some (inl (LCpop true)) | _ => None end
